@@ -144,23 +144,23 @@ Definition decode_plain (t : ptype) (tlen : N) (input : list N) (count : N) : re
 
 Definition le32_val (bs : list N) : N := le_num_f (firstn 4 bs).
 
+(** the length-prefixed level block at the start of [page]: (levels, what follows the block) *)
+Definition read_level_block (w : nat) (page : list N) (n : nat) : res (list N * list N) :=
+  if len page <? 4 then Err ERR_DECODE
+  else let def_size := le32_val page in
+       let rest := skipn 4 page in
+       if len rest <? def_size then Err ERR_DECODE
+       else match decode_levels_rle w (firstn (N.to_nat def_size) rest) n with
+            | Ok lv => Ok (lv, skipn (N.to_nat def_size) rest)
+            | Err c => Err c
+            | Fault f => Fault f
+            end.
+
 (** carquet_read_data_page_v1 on the uncompressed page, for a flat column: (definition levels, dense values) *)
 Definition read_data_page_v1 (c : column) (page : list N) (num_values : N) : res (list N * list value) :=
   let md := max_def c in
   let n := N.to_nat num_values in
-  let after_levels :=
-    if 0 <? md then
-      if len page <? 4 then Err ERR_DECODE
-      else let def_size := le32_val page in
-           let rest := skipn 4 page in
-           if len rest <? def_size then Err ERR_DECODE
-           else match decode_levels_rle (bit_width_for_max md) (firstn (N.to_nat def_size) rest) n with
-                | Ok lv => Ok (lv, skipn (N.to_nat def_size) rest)
-                | Err c => Err c
-                | Fault f => Fault f
-                end
-    else Ok (repeat md n, page) in
-  match after_levels with
+  match (if 0 <? md then read_level_block (bit_width_for_max md) page n else Ok (repeat md n, page)) with
   | Ok (defs, ptr) =>
     let non_null := if 0 <? md then count_eq md (firstn n defs) else n in
     match decode_plain (c_type c) (c_tlen c) ptr (N.of_nat non_null) with
